@@ -1,8 +1,223 @@
-/-! Line-protocol driver for component `Serializer` (stub; the component owner replaces `run`). -/
+import Lean.Data.Json
+import PSO.Model.Serializer
+
+/-! Line-protocol driver for component `serializer` (model `PSO.Serializer`, property C09).
+
+One JSON object per input line = one case, one JSON object per output line.
+
+**Link case** (`serializer.chunks`): two `Serializer` objects, one connection.
+```
+{"k":"link","sm":"memory"|"file","rm":..,"sf":bool,"rf":bool,"sb":n,"rb":n,"evs":[Ev...]}
+Ev = {"e":"send"} | {"e":"burst","b":n} | {"e":"sendOther","n":k} | {"e":"deliver"} | {"e":"reconnect","c":bool}
+   | {"e":"cancel"} | {"e":"serialize","id":n,"p":["hex",..],"fail":bool} | {"e":"check","ck":null|"success"|..}
+   | {"e":"childStep"} | {"e":"childRun"} (all remaining child operations) | {"e":"sndInstall","d":"hex"}
+   | {"e":"rcvSerialize",..} | {"e":"rcvCheck",..} | {"e":"rcvChildStep"} | {"e":"rcvChildRun"} | {"e":"rcvRestart","c":bool}
+```
+Output `{"steps":[{"out":..,"snd":S,"rcv":S,"chan":n}, ...],"held":[hex..],"completed":[hex..]}`, one step per
+event; `out` = chunks produced (`[hex,isFirst,isLast]` or null) / return value of the delivery / status and id.
+`S = {"pid":"idle|doneOk|doneFail|child","id":n,"dump":hex|null,"tmp":..,"tmp1":..,"inc":bool,"trans":[[node,off,hex]..]}`
+
+**Crash case** (`storage.dump`): primitive operations of one dump write or one incoming transfer and the file
+system after every prefix of them.
+```
+{"k":"crash","fs":{"dump":hex|null,"tmp":..,"tmp1":..},"inc":bool,"what":"serialize","p":[hex..],"fail":bool}
+{"k":"crash","fs":{...},"inc":bool,"what":"receive","chunks":[[hex,isFirst,isLast]|null, ...]}
+```
+Output `{"ops":["openW tmp","write tmp <hex>","close tmp","rename tmp dump",..],"images":[FS0,..,FSn],"rets":[..]}`.
+-/
 namespace Driver.Serializer
+open Lean PSO PSO.Serializer
+
+def hexVal (c : Char) : Nat :=
+  if '0' ≤ c ∧ c ≤ '9' then c.toNat - '0'.toNat
+  else if 'a' ≤ c ∧ c ≤ 'f' then c.toNat - 'a'.toNat + 10
+  else if 'A' ≤ c ∧ c ≤ 'F' then c.toNat - 'A'.toNat + 10 else 0
+
+partial def unhexGo : List Char → List UInt8 → List UInt8
+  | a :: b :: rest, acc => unhexGo rest (UInt8.ofNat (16 * hexVal a + hexVal b) :: acc)
+  | _, acc => acc.reverse
+
+def unhex (s : String) : Bytes := unhexGo s.toList []
+
+def hexDigit (n : Nat) : Char := if n < 10 then Char.ofNat (48 + n) else Char.ofNat (87 + n)
+
+def hex (b : Bytes) : String :=
+  String.ofList (b.foldr (fun x acc => hexDigit (x.toNat / 16) :: hexDigit (x.toNat % 16) :: acc) [])
+
+def getD (j : Json) (k : String) : Json := (j.getObjVal? k).toOption.getD Json.null
+def getNat (j : Json) (k : String) : Nat := ((getD j k).getNat?).toOption.getD 0
+def getBool (j : Json) (k : String) : Bool := ((getD j k).getBool?).toOption.getD false
+def getStr (j : Json) (k : String) : String := ((getD j k).getStr?).toOption.getD ""
+def getArr (j : Json) (k : String) : Array Json := ((getD j k).getArr?).toOption.getD #[]
+
+def optHex (j : Json) : Option Bytes :=
+  match j with
+  | .str s => some (unhex s)
+  | _ => none
+
+def jOptHex : Option Bytes → Json
+  | some b => Json.str (hex b)
+  | none => Json.null
+
+def parseMode (s : String) : Mode := if s == "file" then .file else .memory
+
+def parseStatus (j : Json) : Option Status :=
+  match j with
+  | .str "notSerializing" => some .notSerializing
+  | .str "serializing" => some .serializing
+  | .str "success" => some .success
+  | .str "failed" => some .failed
+  | _ => none
+
+def statusStr : Status → String
+  | .notSerializing => "notSerializing" | .serializing => "serializing"
+  | .success => "success" | .failed => "failed"
+
+def pidStr : Pid → String
+  | .idle => "idle" | .doneOk => "doneOk" | .doneFail => "doneFail" | .child => "child"
+
+def parsePieces (j : Json) (k : String) : List Bytes :=
+  (getArr j k).toList.map (fun x => (optHex x).getD [])
+
+def parseChunk (j : Json) : Option Chunk :=
+  match j with
+  | .arr a =>
+    some ⟨(a[0]?.bind optHex).getD [], (a[1]?.bind (·.getBool?.toOption)).getD false,
+          (a[2]?.bind (·.getBool?.toOption)).getD false⟩
+  | _ => none
+
+def jChunk : Option Chunk → Json
+  | some c => Json.arr #[Json.str (hex c.data), Json.bool c.isFirst, Json.bool c.isLast]
+  | none => Json.null
+
+def jFS (fs : FS) : Json :=
+  Json.mkObj [("dump", jOptHex fs.dump), ("tmp", jOptHex fs.tmp), ("tmp1", jOptHex fs.tmp1)]
+
+def parseFS (j : Json) : FS :=
+  { dump := optHex (getD j "dump"), tmp := optHex (getD j "tmp"), tmp1 := optHex (getD j "tmp1") }
+
+def insertSorted (p : Nat × Trans) : List (Nat × Trans) → List (Nat × Trans)
+  | [] => [p]
+  | q :: r => if p.1 ≤ q.1 then p :: q :: r else q :: insertSorted p r
+
+def jSer (s : Ser) : Json :=
+  let tr := s.trans.foldr insertSorted []
+  Json.mkObj [("pid", Json.str (pidStr s.pid)), ("id", Json.num s.curId),
+    ("dump", jOptHex s.fs.dump), ("tmp", jOptHex s.fs.tmp), ("tmp1", jOptHex s.fs.tmp1),
+    ("inc", Json.bool s.incOpen),
+    ("trans", Json.arr (tr.map (fun p => Json.arr #[Json.num p.1, Json.num p.2.off, Json.str (hex p.2.data)])).toArray)]
+
+def nameStr : FName → String
+  | .dump => "dump" | .tmp => "tmp" | .tmp1 => "tmp1"
+
+def opStr : FsOp → String
+  | .openW f => s!"openW {nameStr f}"
+  | .write f b => s!"write {nameStr f} {hex b}"
+  | .close f => s!"close {nameStr f}"
+  | .rename s d => s!"rename {nameStr s} {nameStr d}"
+
+/-- all remaining operations of a fork child -/
+def childRun (s : Ser) : Ser :=
+  match s.child with
+  | some ⟨ops, _⟩ => ops.foldl (fun acc _ => acc.childStep) s
+  | none => s
+
+/-- one protocol event → model events (`childRun` expands to as many `childStep`s as the child has left) -/
+def parseEv (l : Link) (j : Json) : List Ev :=
+  match getStr j "e" with
+  | "send" => [.send]
+  | "burst" => [.burst (getNat j "b")]
+  | "sendOther" => [.sendOther (getNat j "n")]
+  | "deliver" => [.deliver]
+  | "reconnect" => [.reconnect (getBool j "c")]
+  | "cancel" => [.cancel]
+  | "serialize" => [.serialize (getNat j "id") (parsePieces j "p") (getBool j "fail")]
+  | "check" => [.check (parseStatus (getD j "ck"))]
+  | "childStep" => [.childStep]
+  | "childRun" => match l.snd.child with
+    | some ⟨ops, _⟩ => ops.map (fun _ => Ev.childStep)
+    | none => []
+  | "sndInstall" => [.sndInstall ((optHex (getD j "d")).getD [])]
+  | "rcvSerialize" => [.rcvSerialize (getNat j "id") (parsePieces j "p") (getBool j "fail")]
+  | "rcvCheck" => [.rcvCheck (parseStatus (getD j "ck"))]
+  | "rcvChildStep" => [.rcvChildStep]
+  | "rcvChildRun" => match l.rcv.child with
+    | some ⟨ops, _⟩ => ops.map (fun _ => Ev.rcvChildStep)
+    | none => []
+  | "rcvRestart" => [.rcvRestart (getBool j "c")]
+  | _ => []
+
+/-- the observable result of one event (computed with the same model functions `Link.step` uses) -/
+def evOut (l : Link) : Ev → Json
+  | .send => jChunk (l.snd.getTransmissionData peer).2
+  | .burst b => Json.arr ((l.snd.burst peer b).2.map jChunk).toArray
+  | .sendOther n => jChunk (l.snd.getTransmissionData (n + 1)).2
+  | .deliver => match l.chan with
+    | [] => Json.null
+    | c :: _ => Json.bool (l.rcv.setTransmissionData c).2
+  | .serialize id p f => Json.bool (l.snd.serialize id p f).2
+  | .rcvSerialize id p f => Json.bool (l.rcv.serialize id p f).2
+  | .check ck =>
+    let r := l.snd.checkSerializing ck
+    Json.arr #[Json.str (statusStr r.2.1), match r.2.2 with | some i => Json.num i | none => Json.null]
+  | .rcvCheck ck =>
+    let r := l.rcv.checkSerializing ck
+    Json.arr #[Json.str (statusStr r.2.1), match r.2.2 with | some i => Json.num i | none => Json.null]
+  | .sndInstall d => Json.arr ((l.snd.feed [some ⟨d, true, false⟩, some ⟨[], false, true⟩]).2.map Json.bool).toArray
+  | _ => Json.null
+
+def runLink (j : Json) : Json := Id.run do
+  let mut l := Link.init (parseMode (getStr j "sm")) (parseMode (getStr j "rm")) (getBool j "sf") (getBool j "rf")
+    (getNat j "sb") (getNat j "rb")
+  let mut steps : Array Json := #[]
+  for ej in getArr j "evs" do
+    let evs := parseEv l ej
+    let mut out := Json.null
+    for e in evs do
+      out := evOut l e
+      l := l.step e
+    steps := steps.push (Json.mkObj [("out", out), ("snd", jSer l.snd), ("rcv", jSer l.rcv),
+      ("chan", Json.num l.chan.length)])
+  return Json.mkObj [("steps", Json.arr steps), ("held", Json.arr (l.held.map (fun b => Json.str (hex b))).toArray),
+    ("completed", Json.arr (l.completed.map (fun b => Json.str (hex b))).toArray)]
+
+def runCrash (j : Json) : Json :=
+  let fs := parseFS (getD j "fs")
+  let s0 : Ser := { mode := .file, batch := 1, fs := fs, incOpen := getBool j "inc" }
+  let (ops, rets) : List FsOp × List Json :=
+    if getStr j "what" == "serialize" then
+      (serializeOps (parsePieces j "p") (getBool j "fail"),
+       [Json.str (pidStr (s0.serialize 0 (parsePieces j "p") (getBool j "fail")).1.pid)])
+    else
+      let chunks := (getArr j "chunks").toList.map parseChunk
+      let r := chunks.foldl (fun (acc : Ser × List FsOp × List Json) c =>
+        let (s', b) := acc.1.setTransmissionData c
+        (s', acc.2.1 ++ acc.1.acceptOps c, acc.2.2 ++ [Json.bool b])) (s0, [], [])
+      (r.2.1, r.2.2)
+  let images := (List.range (ops.length + 1)).map (fun k => jFS (fs.crashAt ops k))
+  Json.mkObj [("ops", Json.arr (ops.map (fun o => Json.str (opStr o))).toArray),
+    ("images", Json.arr images.toArray), ("rets", Json.arr rets.toArray)]
+
+def handle (line : String) : String :=
+  match Json.parse line with
+  | .error e => (Json.mkObj [("error", Json.str e)]).compress
+  | .ok j =>
+    match getStr j "k" with
+    | "link" => (runLink j).compress
+    | "crash" => (runCrash j).compress
+    | k => (Json.mkObj [("error", Json.str s!"unknown case kind {k}")]).compress
+
+partial def loop (stdin stdout : IO.FS.Stream) : IO Unit := do
+  let line ← stdin.getLine
+  if line.isEmpty then return
+  let t := line.trimAscii.toString
+  if !t.isEmpty then
+    stdout.putStrLn (handle t)
+    stdout.flush
+  loop stdin stdout
 
 def run : IO UInt32 := do
-  IO.eprintln "driver component Serializer: not implemented"
-  return 3
+  loop (← IO.getStdin) (← IO.getStdout)
+  return 0
 
 end Driver.Serializer
